@@ -552,6 +552,8 @@ impl Property for C20 {
     }
     fn generate(&self, rng: &mut Rng, tier: Tier) -> Box<dyn Case> {
         let mut cfg = GenCfg::swarm(rng);
+        // this check uses 65528 / 65529 as the lines that do not exist, and renumbers its layouts anyway
+        cfg.top_line = false;
         cfg.tron = false;
         cfg.rnd = rng.pct(20);
         if rng.pct(60) {
@@ -671,6 +673,7 @@ impl Property for C20 {
                 });
             }
             let mut c2 = GenCfg::swarm(rng);
+            c2.top_line = false;
             c2.size = *rng.pick(&[0usize, 2, 6, 20, 40]);
             let mut resident = render_program(&gen_program(rng, c2));
             match rng.below(10) {
